@@ -128,7 +128,7 @@ def gen_cfg(rng, force=None):
         ls = [float(unit * rng.uniform(0.1, 1.0)) for _ in range(int(rng.integers(1, dim + 2)))]
     na = int(rng.integers(0, dim + 1))
     anis = [float(10 ** rng.uniform(-1, 1)) if rng.random() < 0.8 else 1.0 for _ in range(na)]
-    nang = int(rng.integers(0, noa + 2))
+    nang = int(rng.integers(0, noa + 2)) if rng.random() < 0.6 else noa
     angles = [float(rng.uniform(-math.pi, math.pi)) for _ in range(nang)]
     cls = int(rng.integers(len(model_classes())))
     return dict(latlon=latlon, temporal=temporal, geo=geo, gname=gname, dim_in=dim_in, sdim=sdim, dim=dim,
@@ -336,34 +336,47 @@ def corr_state(ctx, drv, rng, n_cases):
         if not agree(a1, a2, 1.0):
             viol(ctx, "correspondence: set_model_angles", "model and covmodel.tools.set_model_angles differ",
                  dict(case, impl_angles=hexl(a1), model_angles=hexl(a2)), "corr:set_model_angles", no_input=True)
-        # setter sequence
+        # setter sequence (len_scale / anis / angles / dim up and down); temporal metric models often start with ALL angles set
         ops, desc = [], []
         mm = m
         ok = True
-        for _ in range(int(rng.integers(1, 5))):
-            kind = int(rng.integers(3))
+        names = ["len_scale", "anis", "angles", "dim"]
+        for _ in range(int(rng.integers(1, 6))):
+            kind = int(rng.integers(4))
             unit = cfg["geo"] if cfg["latlon"] else 1.0
+            dnow = int(mm.dim)
             try:
                 if kind == 0:
                     v = [float(unit * rng.uniform(0.1, 1.0)) for _ in range(int(rng.integers(1, 3)) if rng.random() < 0.4 else 1)]
                     mm.len_scale = v[0] if len(v) == 1 else v
                 elif kind == 1:
-                    v = [float(10 ** rng.uniform(-1, 1)) for _ in range(int(rng.integers(1, cfg["dim"] + 1)))]
+                    v = [float(10 ** rng.uniform(-1, 1)) for _ in range(int(rng.integers(1, dnow + 1)))]
                     mm.anis = v
-                else:
-                    v = [float(rng.uniform(-3, 3)) for _ in range(int(rng.integers(1, 4)))]
+                elif kind == 2:
+                    full = dnow * (dnow - 1) // 2
+                    v = [float(rng.uniform(-3, 3)) for _ in range(full + 1 if rng.random() < 0.5 else int(rng.integers(1, 4)))]
                     mm.angles = v
+                else:
+                    v = int(rng.integers(2 if cfg["temporal"] else 1, 6))
+                    mm.dim = v
             except ValueError:
                 ok = False
-            ops += [("z", kind), np.array(v, dtype=float)]
-            desc.append([["len_scale", "anis", "angles"][kind], v])
-            ctx.count(("setter", key, kind), hist=dict(op="setter:" + ["len_scale", "anis", "angles"][kind]))
+            ops += [("z", kind), np.array(v, dtype=float)] if kind < 3 else [("z", 3), ("n", v)]
+            desc.append([names[kind], v])
+            ctx.count(("setter", key, kind, dnow), hist=dict(op="setter:" + names[kind]))
             if not ok:
                 break
             ms = drv.call("steps", *(margs(cfg) + ops))
             st = state_of(mm)
+            # the property itself on the implementation's state (concrete history if it fails)
+            bad_state = state_defect(mm)
+            if bad_state:
+                viol(ctx, "probe: model state after a setter history", bad_state,
+                     dict(case, history=desc, dim=st[0], anis=list(st[3]), angles=list(st[4])), "probe:state-history")
+                ok = False
+                break
             if not state_agree(st, ms):
-                viol(ctx, "correspondence: CovModel setters (len_scale/anis/angles)", "model state differs from CovModel after setters",
+                viol(ctx, "correspondence: CovModel setters (len_scale/anis/angles/dim)", "model state differs from CovModel after setters",
                      dict(case, ops=desc, impl=[st[0], st[1], st[2], list(st[3]), list(st[4])],
                           model=None if ms is None else [ms[0], ms[1], ms[2], list(ms[3]), list(ms[4])]), "corr:setters", no_input=True)
                 ok = False
@@ -407,6 +420,30 @@ def corr_state(ctx, drv, rng, n_cases):
                 if not agree(got, ref, s):
                     viol(ctx, "correspondence: " + name, "model and tools.geometric.%s differ" % name,
                          dict(case, impl=hexl(ref), model=hexl(got)), "corr:" + name, no_input=True)
+
+
+def state_defect(m):
+    """the C13 state invariant evaluated on a CovModel: None if it holds, else what is broken"""
+    d = int(m.dim)
+    ang = np.asarray(m.angles, dtype=float)
+    an = np.asarray(m.anis, dtype=float)
+    if len(an) != d - 1 or len(ang) != d * (d - 1) // 2:
+        return "wrong number of ratios / angles for dim %d" % d
+    if m.latlon:
+        if d != 3 + int(m.temporal) or list(an[:2]) != [1.0, 1.0] or np.any(ang != 0):
+            return "lat-lon model without dim 3(+1) / spatial ratios 1 / zero angles"
+        return None
+    if m.temporal and d >= 2:
+        if np.any(ang[(d - 1) * (d - 2) // 2:] != 0):
+            return "temporal model with a non-zero rotation angle in a plane containing the time axis"
+        e = np.zeros((d, 1))
+        e[-1, 0] = 1.0
+        iso = m.isometrize(e)[:, 0]
+        exp = np.zeros(d)
+        exp[-1] = 1.0 / an[-1]
+        if not agree(iso, exp, abs(exp[-1]), 1e-14):
+            return "isometrize does not map a pure time lag to the last axis scaled by 1/anis[-1]"
+    return None
 
 
 class CovOracle:
@@ -856,9 +893,10 @@ def probe_fit(ctx, rng, n_cases):
     """fit_variogram of a lat-lon model on exact Yadrenko variogram values over great-circle lags recovers the parameters
     (it would not if the lags were used as chordal distances or in the wrong unit)"""
     import gstools as gs
-    gsc = geo_scales()
+    gsc = dict(geo_scales(), miles=3958.8)
+    unit_names = list(gsc)
     for it in range(n_cases):
-        gname = GEO_NAMES[it % 4]
+        gname = unit_names[it % len(unit_names)]
         g = gsc[gname]
         cls = [gs.Exponential, gs.Gaussian][it % 2]
         ls, var = float(g * rng.uniform(0.5, 1.2)), float(rng.uniform(0.5, 2))
@@ -873,6 +911,29 @@ def probe_fit(ctx, rng, n_cases):
             viol(ctx, "probe: fit_variogram raises", "fit_variogram(latlon) raised %r" % (e,),
                  dict(model=cls.__name__, geo_scale=g, len_scale=ls, var=var), "probe:exception")
             continue
+        # return_r2 (noisy values so that r2 < 1): the score must be that of the fitted Yadrenko variogram at the GIVEN great-circle lags
+        yn = y * (1 + 0.08 * rng.normal(size=y.size))
+        f2 = cls(latlon=True, geo_scale=g, var=1.0, len_scale=0.5 * g)
+        try:
+            _, _, r2 = f2.fit_variogram(x, yn, nugget=False, return_r2=True)
+            res = yn - f2.vario_yadrenko(x)
+            r2_exp = 1.0 - np.sum(res ** 2) / np.sum((yn - np.mean(yn)) ** 2)
+            if not abs(r2 - r2_exp) <= 1e-10:
+                viol(ctx, "probe: fit_variogram(latlon, return_r2=True)",
+                     "the returned r2 is not the score of the fitted Yadrenko variogram at the given great-circle lags",
+                     dict(model=cls.__name__, geo_scale=g, x=hexl(x), y=hexl(yn), r2=float(r2), expected_r2=float(r2_exp),
+                          fitted_len_scale=float(f2.len_scale), fitted_var=float(f2.var)), "probe:fit-r2")
+        except Exception as e:
+            viol(ctx, "probe: fit_variogram raises", "fit_variogram(latlon, return_r2=True) raised %r" % (e,),
+                 dict(model=cls.__name__, geo_scale=g), "probe:exception")
+        # pykrige interface: r is a great-circle distance in DEGREES
+        rdeg = rng.uniform(0, 180, size=4)
+        pv = np.array([float(truth.pykrige_vario(r=float(v))) for v in rdeg])
+        pe = truth.vario_yadrenko(g * np.deg2rad(rdeg))
+        if not agree(pv, pe, truth.var, 1e-12):
+            viol(ctx, "probe: pykrige_vario(latlon)", "pykrige_vario(r degrees) is not the Yadrenko variogram of the great-circle distance "
+                 "geo_scale * deg2rad(r)", dict(model=cls.__name__, geo_scale=g, len_scale=ls, r_deg=[float(v) for v in rdeg],
+                                                 values=[float(v) for v in pv], expected=[float(v) for v in pe]), "probe:pykrige-vario")
         # curve_fit converges to ~1e-8 on exact data; a lag-unit / chord mix-up moves len_scale by > 5 % for these lags
         if not (abs(fit.len_scale - ls) <= 1e-3 * ls and abs(fit.var - var) <= 1e-3 * var):
             viol(ctx, "probe: fit_variogram(latlon) recovers the Yadrenko model",
@@ -1439,7 +1500,7 @@ def run(ctx):
         stage("probe_vario", probe_vario, ctx, rng, 2000 if thorough else 160)
         stage("probe_pipelines", probe_pipelines, ctx, rng, 400 if thorough else 40)
         stage("probe_time_axis", probe_time_axis, ctx, rng, 2000 if thorough else 160)
-        stage("probe_fit", probe_fit, ctx, rng, 80 if thorough else 8)
+        stage("probe_fit", probe_fit, ctx, rng, 80 if thorough else 16)
         stage("probe_bins", probe_bins, ctx, rng, 200 if thorough else 25)
         stage("probe_autofit", probe_autofit, ctx, rng, 20 if thorough else 4)
         if drv is not None:
